@@ -534,4 +534,132 @@ theorem runOps_sizeInv {cfg : Cfg} (ops : List Op) (w : World) (h : SizeInv cfg 
     | tick n => exact h
     | sweep => exact sweep_sizeInv h _
 
+/-! ### the order of `header_elements`: `no-cache` is always seen before `max-age` -/
+
+theorem strLt_asymm (x y : Str) (h : strLt x y = true) : strLt y x = false := by
+  induction x generalizing y with
+  | nil => cases y <;> simp [strLt] at h ⊢
+  | cons a as ih =>
+    cases y with
+    | nil => simp [strLt] at h
+    | cons b bs =>
+      simp only [strLt] at h ⊢
+      split at h
+      · rename_i hab
+        have : ¬ b.toNat < a.toNat := by omega
+        simp [this, hab]
+      · split at h
+        · cases h
+        · rename_i h1 h2
+          simp only [h2, h1, if_false]
+          exact ih bs h
+
+/-- `¬ x < y` and `¬ y < z` give `¬ x < z` (the order is total) -/
+theorem strLt_negtrans (x y z : Str) (h1 : strLt x y = false) (h2 : strLt y z = false) :
+    strLt x z = false := by
+  induction x generalizing y z with
+  | nil =>
+    cases y with
+    | nil => exact h2
+    | cons b bs => simp [strLt] at h1
+  | cons a as ih =>
+    cases z with
+    | nil => simp [strLt]
+    | cons c cs =>
+      cases y with
+      | nil => simp [strLt] at h2
+      | cons b bs =>
+        simp only [strLt] at h1 h2 ⊢
+        split at h1
+        · cases h1
+        · rename_i hab
+          split at h2
+          · cases h2
+          · rename_i hbc
+            split at h1
+            · rename_i hba
+              have h3 : ¬ a.toNat < c.toNat := by omega
+              have h4 : c.toNat < a.toNat := by omega
+              simp [h3, h4]
+            · rename_i hba
+              split at h2
+              · rename_i hcb
+                have h3 : ¬ a.toNat < c.toNat := by omega
+                have h4 : c.toNat < a.toNat := by omega
+                simp [h3, h4]
+              · rename_i hcb
+                have h3 : ¬ a.toNat < c.toNat := by omega
+                have h4 : ¬ c.toNat < a.toNat := by omega
+                simp only [h3, h4, if_false]
+                exact ih bs cs h1 h2
+
+/-- descending: no element is smaller than a later one -/
+def Desc (l : List Str) : Prop := l.Pairwise fun a b => strLt a b = false
+
+theorem insDesc_desc (x : Str) (l : List Str) (h : Desc l) : Desc (insDesc x l) := by
+  induction l with
+  | nil => simp [insDesc, Desc]
+  | cons y ys ih =>
+    simp only [insDesc]
+    have hy := List.pairwise_cons.mp h
+    split
+    · rename_i hxy
+      apply List.pairwise_cons.mpr
+      refine ⟨?_, ih hy.2⟩
+      intro z hz
+      rcases (mem_insDesc x z ys).mp hz with rfl | hz
+      · exact strLt_asymm _ _ hxy
+      · exact hy.1 z hz
+    · rename_i hxy
+      have hxy' : strLt x y = false := by simpa using hxy
+      apply List.pairwise_cons.mpr
+      refine ⟨?_, h⟩
+      intro z hz
+      rcases List.mem_cons.mp hz with rfl | hz
+      · exact hxy'
+      · exact strLt_negtrans x y z hxy' (hy.1 z hz)
+
+theorem sortDesc_desc (l : List Str) : Desc (sortDesc l) := by
+  induction l with
+  | nil => simp [sortDesc, Desc]
+  | cons x xs ih => exact insDesc_desc x _ ih
+
+theorem splitEq_head (v : Str) (c : Char) (cs : Str) (h : (splitEq v).1 = c :: cs) : ∃ t, v = c :: t := by
+  cases v with
+  | nil => simp [splitEq] at h
+  | cons x t =>
+    simp only [splitEq] at h
+    split at h
+    · cases h
+    · simp only [List.cons.injEq] at h
+      exact ⟨t, by rw [h.1]⟩
+
+/-- on a descending list, an element with directive `no-cache` wins over every `max-age` -/
+theorem scan_desc_no_cache (l : List Str) (hd : Desc l) (h : ∃ v ∈ l, (splitEq v).1 = sNoCache) :
+    scanCC l = .noCache := by
+  induction l with
+  | nil => obtain ⟨v, hv, _⟩ := h; cases hv
+  | cons x xs ih =>
+    obtain ⟨v, hv, hdir⟩ := h
+    have hx := List.pairwise_cons.mp hd
+    simp only [scanCC]
+    split
+    · rename_i hma
+      exfalso
+      rcases List.mem_cons.mp hv with rfl | hv'
+      · rw [hma] at hdir
+        revert hdir
+        decide
+      · obtain ⟨t1, rfl⟩ := splitEq_head x _ _ hma
+        obtain ⟨t2, rfl⟩ := splitEq_head v _ _ hdir
+        have := hx.1 _ hv'
+        simp [strLt] at this
+    · split
+      · rfl
+      · rename_i h1 h2
+        apply ih hx.2
+        rcases List.mem_cons.mp hv with rfl | hv'
+        · exact absurd hdir h2
+        · exact ⟨v, hv', hdir⟩
+
 end CpProofs.C15
